@@ -2,6 +2,10 @@ package main
 
 import (
 	"bytes"
+	"encoding/binary"
+	"hash/adler32"
+	"hash/crc32"
+	"math/bits"
 	"fmt"
 	"io"
 	"strings"
@@ -10,6 +14,8 @@ import (
 	"github.com/datastax/go-cassandra-native-protocol/compression/snappy"
 	"github.com/datastax/go-cassandra-native-protocol/crc"
 	"github.com/datastax/go-cassandra-native-protocol/segment"
+	"github.com/datastax/go-cassandra-native-protocol/frame"
+	"github.com/datastax/go-cassandra-native-protocol/message"
 	"github.com/datastax/go-cassandra-native-protocol/primitive"
 	"verif/internal/gen"
 	"verif/internal/lp"
@@ -288,11 +294,26 @@ func runC07(res *lp.Result) {
 		"burst contents). Each corrupted segment must be rejected with an error and no payload. Non-trivial = every pattern; distinct by pattern."
 	rng := lp.NewRng(*seed)
 	codecs := map[string]segment.Codec{"none": segment.NewCodec(), "lz4": segment.NewCodecWithCompression(lz4.Compressor{})}
+	// every second corrupted segment is followed, in the same source, by a pristine one (as on a connection): the corrupted one
+	// must still be reported — a decoder that quietly moves on to the next segment has accepted the stream
+	followers := map[string][]byte{}
+	for cname, c := range codecs {
+		var b bytes.Buffer
+		c.EncodeSegment(&segment.Segment{Header: &segment.Header{IsSelfContained: true}, Payload: &segment.Payload{UncompressedData: []byte("the segment that follows")}}, &b)
+		followers[cname] = append([]byte{}, b.Bytes()...)
+	}
+	tries := 0
 	try := func(cname string, corrupted []byte, what string) {
 		res.Case(cname+"/"+what, true)
-		s, err := codecs[cname].DecodeSegment(bytes.NewReader(corrupted))
+		tries++
+		in := corrupted
+		if tries%2 == 0 {
+			in = append(append([]byte{}, corrupted...), followers[cname]...)
+			what += ", followed by a pristine segment"
+		}
+		s, err := codecs[cname].DecodeSegment(bytes.NewReader(in))
 		if err == nil {
-			res.Add(lp.Finding{Kind: "violation", What: "corrupted segment accepted (" + what + ")", Input: "seg dec " + cname + " " + hx(corrupted),
+			res.Add(lp.Finding{Kind: "violation", What: "corrupted segment accepted (" + what + ")", Input: "seg dec " + cname + " " + hx(in),
 				Impl: fmt.Sprintf("payload %d bytes", len(s.Payload.UncompressedData))})
 		}
 	}
@@ -401,6 +422,45 @@ func runC07(res *lp.Result) {
 					try(cname, c, fmt.Sprintf("payload burst of %d at %d (len %d)", l, a, len(p)))
 					res.Count("payload/burst")
 				}
+			}
+		}
+	}
+	// the trailer replaced by what OTHER checksum conventions would put there (each differs from the right trailer by one burst of
+	// at most 32 bits): the plain IEEE CRC-32 without the protocol's four initial bytes, CRC-32C with and without them, the right
+	// value in big-endian order, its complement, Adler-32, zeros, ones
+	for _, cname := range []string{"none", "lz4"} {
+		for pi, p := range payloads {
+			var buf bytes.Buffer
+			if codecs[cname].EncodeSegment(&segment.Segment{Header: &segment.Header{IsSelfContained: pi%2 == 0}, Payload: &segment.Payload{UncompressedData: p}}, &buf) != nil || buf.Len() < 4 {
+				continue
+			}
+			enc := buf.Bytes()
+			hl := 6
+			if cname == "lz4" {
+				hl = 8
+			}
+			wire := enc[hl : len(enc)-4]
+			right := binary.LittleEndian.Uint32(enc[len(enc)-4:])
+			seed := []byte{0xFA, 0x2D, 0x55, 0xCA}
+			cast := crc32.MakeTable(crc32.Castagnoli)
+			alts := map[string]uint32{
+				"IEEE CRC-32 without the initial bytes": crc32.ChecksumIEEE(wire),
+				"CRC-32C with the initial bytes":        crc32.Update(crc32.Update(0, cast, seed), cast, wire),
+				"CRC-32C without the initial bytes":     crc32.Checksum(wire, cast),
+				"the right CRC-32 in big-endian order":  bits.ReverseBytes32(right),
+				"the complement of the right CRC-32":    ^right,
+				"Adler-32":                              adler32.Checksum(wire),
+				"zeros":                                 0,
+				"ones":                                  0xffffffff,
+			}
+			for name, v := range alts {
+				if v == right {
+					continue
+				}
+				c := append([]byte{}, enc...)
+				binary.LittleEndian.PutUint32(c[len(c)-4:], v)
+				res.Count("payload/alternative-checksum")
+				try(cname, c, fmt.Sprintf("trailer replaced by %s (len %d)", name, len(p)))
 			}
 		}
 	}
@@ -693,6 +753,80 @@ func runC08(res *lp.Result) {
 							res.Add(lp.Finding{Kind: "violation", What: fmt.Sprintf("compressed frame %d of two back to back decodes to other content", k), Input: id, Impl: trunc(got), Model: trunc(w)})
 							break
 						}
+					}
+				}
+			}
+		}
+	}
+	// segments decoded one after the other by ONE codec (what a connection does): what an earlier decode returned must still be
+	// the earlier payload after the later decode — compressible and incompressible payloads, with and without a compressor
+	for _, cname := range []string{"none", "lz4"} {
+		var codec segment.Codec
+		if cname == "none" {
+			codec = segment.NewCodec()
+		} else {
+			codec = segment.NewCodecWithCompression(lz4.Compressor{})
+		}
+		ps := [][]byte{rng.Bytes(64), text(300), rng.Bytes(48), bytes.Repeat([]byte{7}, 500), rng.Bytes(200), {}}
+		var stream bytes.Buffer
+		for i, p := range ps {
+			codec.EncodeSegment(&segment.Segment{Header: &segment.Header{IsSelfContained: i%2 == 0}, Payload: &segment.Payload{UncompressedData: append([]byte{}, p...)}}, &stream)
+		}
+		var got [][]byte
+		rd := bytes.NewReader(stream.Bytes())
+		for range ps {
+			sg, err := codec.DecodeSegment(rd)
+			if err != nil {
+				res.Add(lp.Finding{Kind: "violation", What: "segment of a sequence does not decode (" + cname + "): " + firstWords(err.Error()), Input: "segments " + hx(stream.Bytes())})
+				break
+			}
+			got = append(got, sg.Payload.UncompressedData) // kept, not copied
+		}
+		res.Count("segment-sequences")
+		res.Case("segment sequence "+cname, true)
+		for i := range got {
+			if !bytes.Equal(got[i], ps[i]) {
+				res.Add(lp.Finding{Kind: "violation", What: fmt.Sprintf("payload returned for segment %d of a sequence is changed by decoding the following segments with the same codec (%s)", i, cname),
+					Input: "segments " + hx(stream.Bytes()), Impl: hx(got[i][:minInt(len(got[i]), 64)]), Model: hx(ps[i][:minInt(len(ps[i]), 64)])})
+				break
+			}
+		}
+	}
+	// compressed frames through the raw-frame path (ConvertToRawFrame / EncodeRawFrame / DecodeRawFrame / ConvertFromRawFrame): bodies
+	// that shrink and bodies that do not (random tokens), the declared length must be that of the compressed body
+	for _, v := range gen.Versions {
+		for _, cs := range compSettings() {
+			if cs.comp == nil || (cs.name == "snappy" && v == primitive.ProtocolVersion5) {
+				continue
+			}
+			for k, m := range []message.Message{&message.AuthResponse{Token: rng.Bytes(300)}, &message.Query{Query: strings.Repeat("SELECT * FROM t ", 40)},
+				&message.AuthResponse{Token: rng.Bytes(17)}, &message.Query{Query: "q"}} {
+				f := frame.NewFrame(v, int16(k+1), m)
+				f.SetCompress(true)
+				id := fmt.Sprintf("raw path of a compressed %T frame v=%d comp=%s", m, v, cs.name)
+				res.Case(id+fmt.Sprint(k), true)
+				res.Count("compressed-raw-path")
+				want := show.Frame(show.Normalize(f.DeepCopy()))
+				raw, err := cs.codec.ConvertToRawFrame(f)
+				if err != nil {
+					res.Add(lp.Finding{Kind: "violation", What: "ConvertToRawFrame fails on a compressed frame: " + firstWords(err.Error()), Input: id})
+					continue
+				}
+				if int(raw.Header.BodyLength) != len(raw.Body) {
+					res.Add(lp.Finding{Kind: "violation", What: fmt.Sprintf("raw frame of a compressed frame declares %d body bytes and carries %d", raw.Header.BodyLength, len(raw.Body)), Input: id})
+				}
+				back, err := cs.codec.ConvertFromRawFrame(raw)
+				if err != nil {
+					res.Add(lp.Finding{Kind: "violation", What: "a compressed frame converted to a raw frame does not convert back: " + firstWords(err.Error()), Input: id})
+					continue
+				}
+				if got := show.Frame(show.Normalize(back)); got != want {
+					res.Add(lp.Finding{Kind: "violation", What: "a compressed frame converted to a raw frame and back has other content", Input: id, Impl: trunc(got), Model: trunc(want)})
+				}
+				var wire bytes.Buffer
+				if err := cs.codec.EncodeRawFrame(raw, &wire); err == nil {
+					if d, err := cs.codec.DecodeFrame(bytes.NewReader(wire.Bytes())); err != nil || show.Frame(show.Normalize(d)) != want {
+						res.Add(lp.Finding{Kind: "violation", What: "the bytes of a raw frame made from a compressed frame do not decode to the frame", Input: id + " bytes=" + hx(wire.Bytes()), Impl: fmt.Sprint(err)})
 					}
 				}
 			}
